@@ -222,7 +222,7 @@ def u2(cx):
             for f in v['fields']:
                 ft = F.ty(f['t'])
                 if ft['k'] == 'param' and amap.get(ft['n'], ft['n']) in subs_params:
-                    if (roles.impl_tag(cx, im), 'self.' + f['n']) in c17.K1_EXEMPT_PARTS:
+                    if c17.k1_exempt(cx, im, 'self.' + f['n']):
                         continue  # shared, ref-counted resource (released by the last leaver, C11.P-c)
                     parts.append(f['n'])
         if not parts:
